@@ -11,6 +11,8 @@ def check(rep):
     ER.rule_call_forwards(ctx, rid="C17.CALL-READS-ONE", publish=True)
     ER.rule_commit_order(ctx, rid="C17.PUBLISH-AFTER-BUILD")
     ER.rule_instance_only(ctx, rid="C17.INSTANCE-ONLY")
+    # a function whose globals dict outlives the call can see names rebound by a later recompile while it runs
+    ER.rule_installed_function(ctx, rid="C17.FRESH-NAMESPACE", strict=False, facets=("namespace",))
     rep.assume("CPython's GIL makes one attribute load/store atomic; pydantic, re and hashlib are thread-safe")
     rep.assume("NOT claimed: two concurrent recompiles of the same evaluator")
     return ("Ownership/escape analysis: every lexer, parser and generator object is constructed inside a call and stays local; no "
